@@ -96,8 +96,11 @@ pub trait ServerMsg: ReadXml {
         let mut this = None;
         loop {
             match reader.read_resolved_event()? {
+                // a document has exactly one root element: a second one is not overwritten with,
+                // but falls through to the unexpected events
                 (ResolveResult::Bound(ns), Event::Start(tag))
-                    if ns == Self::TAG_NS
+                    if this.is_none()
+                        && ns == Self::TAG_NS
                         && tag.local_name().as_ref() == Self::TAG_NAME.as_bytes() =>
                 {
                     this = Some(Self::read_xml(&mut reader, &tag)?);
